@@ -1,7 +1,7 @@
 // Contracts for crates/jxl-coding/src/ans.rs (child module: sees Histogram's and Bucket's private fields).
 //
-// Data-structure invariant of the alias table (derived from read_symbol's needs and established by
-// `Histogram::parse`, see the parse_* obligations):
+// Data-structure invariant of the alias table (derived from what read_symbol needs; it is what
+// `Histogram::parse` builds -- ans.rs:180-261 -- but that is NOT proved, see the note at the end):
 //   wf_table(h):   4 <= log_bucket_size <= 7,  buckets.len() << log_bucket_size == 4096,
 //                  bucket_mask == (1 << log_bucket_size) - 1
 //   wf_slot(h, x): for slot x in 0..4096 with (s, off) = AliasMapping(x) (18181-1 C.2.6):
@@ -9,8 +9,7 @@
 //                  branch-free distribution lookup agrees with D:  when the slot maps to the alias,
 //                  buckets[i].dist ^ buckets[i].alias_dist_xor == D[s].
 // `read_symbol_contract` assumes wf_slot only at the one slot `state & 0xfff` it uses (a weaker
-// precondition than "for all x", hence a stronger theorem); the parse obligations prove wf_slot at a
-// symbolic slot, i.e. for all 4096 of them.
+// precondition than "for all x", hence a stronger theorem).
 //
 // Bit view: as in lib.rs -- bit i of the stream is (data[i/8] >> (i%8)) & 1, position is num_read_bits().
 use super::*;
@@ -238,149 +237,21 @@ fn read_symbol_prefix_lemma() {
 }
 
 // ------------------------------------------------------------------------------------------------
-// Histogram::parse establishes wf and builds a bijective alias table for the distribution it read
+// Histogram::parse, one-symbol distributions: the alias table it builds satisfies wf and maps slot x to
+// (symbol, x) -- the bijection onto {(s, o) : o < D[s] = 4096}.
+//
+// The bit reader is replaced by a stub with the ASSUMED contract "read_bool / read_bits(n) return the next
+// field of the header, masked to n bits" (what bs.read_bits / bs.read_bool establish) with a CONCRETE
+// script, because only then does CBMC's symbolic execution follow the single-symbol path alone.
+// Measured limits (Kani 0.68 / CBMC 6.11), hence NOT under contract: every other header form. With symbolic
+// header fields, or with a concrete two-symbol header, symbolic execution of the alias construction
+// (ans.rs:200-254: Vec work lists, iterator adaptors, heap-resident loop bounds) does not finish in 20 min
+// for log_alphabet_size = 5; with the real reader it additionally explores the compressed-distribution
+// branch, because `assume`d header bits are not constant-propagated through `Bitstream::buf`.
+// So "parse establishes wf_slot for every slot, injectively, sum(D) = 4096" is UNVERIFIED for binary, flat
+// and compressed headers.
 // ------------------------------------------------------------------------------------------------
-/// U8() of 18181-1 C.2.2 on the view: (value, bits) or None at end of data
-fn spec_u8(v: &View, p: usize) -> Option<(u32, usize)> {
-    if !v.has(p, 1) { return None; }
-    if v.u(p, 1) == 0 { return Some((0, 1)); }
-    if !v.has(p + 1, 3) { return None; }
-    let n = v.u(p + 1, 3) as usize;
-    if !v.has(p + 4, n) { return None; }
-    Some(((1u32 << n) + v.u(p + 4, n), 4 + n))
-}
-
-/// Post-state checks shared by all header forms: `d(i)` is the distribution the header denotes.
-fn check_table(h: &Histogram, las: u32, expect: &dyn Fn(usize) -> u32) {
-    let n = 1usize << las;
-    assert!(wf_table(h) && h.buckets.len() == n && h.log_bucket_size == 12 - las, "[C02,C04] parse establishes wf_table");
-    // D == the transmitted distribution, and it sums to 4096
-    let mut sum = 0u32;
-    let mut i = 0;
-    while i < n {
-        assert!(h.buckets[i].dist as u32 == expect(i), "[C04] D[i] is the distribution denoted by the header");
-        sum += h.buckets[i].dist as u32;
-        i += 1;
-    }
-    assert!(sum == 4096, "[C04] the distribution sums to 2^12");
-    // every slot is well-formed ...
-    let x: u32 = kani::any();
-    let y: u32 = kani::any();
-    kani::assume(x < 4096 && y < 4096 && x != y);
-    assert!(wf_slot(h, x), "[C02,C04,C01] parse establishes wf_slot for every slot: offset < D[symbol] <= 4096, symbol < table size");
-    // ... and the mapping slot -> (symbol, offset) is injective. With range {(s, o): o < D[s]} of size
-    // sum(D) = 4096 = number of slots this makes it a bijection (counting argument, on paper).
-    assert!(spec_alias_lookup(h, x) != spec_alias_lookup(h, y), "[C04] alias mapping is injective");
-    // single_symbol() is the RLE / single-token shortcut: it must be exactly "D[s] == 4096"
-    match h.single_symbol() {
-        Some(s) => assert!((s as usize) < n && h.buckets[s as usize].dist == 4096, "[C04] single_symbol() only for a one-symbol distribution"),
-        None => {
-            let k: usize = kani::any();
-            kani::assume(k < n);
-            assert!(h.buckets[k].dist != 4096, "[C04] a one-symbol distribution is always reported by single_symbol()");
-        }
-    }
-}
-
-fn parse_unary(las: u32) {
-    let data: [u8; 16] = kani::any();
-    let view = View::of(&data, 16);
-    // header: 1, 0, U8() -> one symbol with probability 4096
-    kani::assume(view.u(0, 2) == 0b01);
-    let mut bs = Bitstream::new(&data);
-    let r = Histogram::parse(&mut bs, las);
-    let (val, used) = spec_u8(&view, 2).unwrap();
-    match &r {
-        Err(e) => assert!(val as usize + 1 > (1usize << las) && matches!(e, Error::InvalidAnsHistogram), "[C04] only a symbol outside the alphabet is rejected"),
-        Ok(h) => {
-            assert!((val as usize) < (1usize << las), "[C04]");
-            assert!(bs.num_read_bits() == 2 + used, "[C04] header bits consumed");
-            assert!(h.single_symbol() == Some(val), "[C04] single symbol is the transmitted one");
-            check_table(h, las, &|i| if i == val as usize { 4096 } else { 0 });
-        }
-    }
-    kani::cover!(matches!(&r, Ok(h) if h.single_symbol() == Some(17)));
-    kani::cover!(matches!(&r, Err(Error::InvalidAnsHistogram)));
-}
-
-#[kani::proof]
-#[kani::unwind(34)]
-fn parse_unary_las5() { parse_unary(5); }
-#[kani::proof]
-#[kani::unwind(66)]
-fn parse_unary_las6() { parse_unary(6); }
-
-fn parse_binary(las: u32) {
-    let data: [u8; 16] = kani::any();
-    let view = View::of(&data, 16);
-    // header: 1, 1, U8() v0, U8() v1, u(12) prob   (at most 2 + 11 + 11 + 12 = 36 bits)
-    kani::assume(view.u(0, 2) == 0b11);
-    let mut bs = Bitstream::new(&data);
-    let r = Histogram::parse(&mut bs, las);
-    let (v0, b0) = spec_u8(&view, 2).unwrap();
-    let (v1, b1) = spec_u8(&view, 2 + b0).unwrap();
-    let prob = view.u(2 + b0 + b1, 12);
-    let n = 1usize << las;
-    let valid = v0 != v1 && (v0.max(v1) as usize) < n;
-    match &r {
-        Err(e) => assert!(!valid && matches!(e, Error::InvalidAnsHistogram), "[C04] rejected exactly for equal symbols or a symbol outside the alphabet"),
-        Ok(h) => {
-            assert!(valid, "[C04]");
-            assert!(bs.num_read_bits() == 2 + b0 + b1 + 12, "[C04] header bits consumed");
-            check_table(h, las, &|i| if i == v0 as usize { prob } else if i == v1 as usize { 4096 - prob } else { 0 });
-        }
-    }
-    kani::cover!(matches!(&r, Ok(h) if h.single_symbol().is_none()));
-    kani::cover!(matches!(&r, Ok(h) if h.single_symbol().is_some()));
-    kani::cover!(r.is_err());
-}
-
-#[kani::proof]
-#[kani::unwind(34)]
-fn parse_binary_las5() { parse_binary(5); }
-#[kani::proof]
-#[kani::unwind(66)]
-fn parse_binary_las6() { parse_binary(6); }
-
-/// flat form with a CONCRETE alphabet size (the 4096 / alphabet_size division does not close symbolically)
-fn parse_flat(las: u32, alphabet_size: u32) {
-    let data: [u8; 16] = kani::any();
-    let view = View::of(&data, 16);
-    // header: 0, 1, U8() alphabet_size - 1
-    kani::assume(view.u(0, 2) == 0b10);
-    let (a, b) = spec_u8(&view, 2).unwrap();
-    kani::assume(a + 1 == alphabet_size);
-    let mut bs = Bitstream::new(&data);
-    let r = Histogram::parse(&mut bs, las);
-    let n = 1usize << las;
-    match &r {
-        Err(e) => assert!(alphabet_size as usize > n && matches!(e, Error::InvalidAnsHistogram), "[C04]"),
-        Ok(h) => {
-            assert!(alphabet_size as usize <= n);
-            assert!(bs.num_read_bits() == 2 + b, "[C04] header bits consumed");
-            let base = 4096 / alphabet_size;
-            let left = 4096 % alphabet_size;
-            check_table(h, las, &|i| if (i as u32) < left { base + 1 } else if (i as u32) < alphabet_size { base } else { 0 });
-        }
-    }
-    kani::cover!(r.is_ok());
-}
-
-#[kani::proof]
-#[kani::unwind(34)]
-fn parse_flat_las5_n3() { parse_flat(5, 3); }
-#[kani::proof]
-#[kani::unwind(34)]
-fn parse_flat_las5_n32() { parse_flat(5, 32); }
-#[kani::proof]
-#[kani::unwind(34)]
-fn parse_flat_las5_n19() { parse_flat(5, 19); }
-#[kani::proof]
-#[kani::unwind(66)]
-fn parse_flat_las6_n41() { parse_flat(6, 41); }
-
-// ---- TEMP experiments ----
-static mut SCRIPT: [u32; 12] = [0; 12];
+static mut SCRIPT: [u32; 6] = [0; 6];
 static mut SCRIPT_POS: usize = 0;
 fn script_read_bool<'a>(_bs: &mut Bitstream<'a>) -> jxl_bitstream::BitstreamResult<bool> where 'a: 'a {
     unsafe {
@@ -396,54 +267,52 @@ fn script_read_bits<'a>(_bs: &mut Bitstream<'a>, n: usize) -> jxl_bitstream::Bit
         Ok(if n >= 32 { v } else { v & ((1u32 << n) - 1) })
     }
 }
-#[kani::proof]
-#[kani::stub(jxl_bitstream::Bitstream::read_bool, script_read_bool)]
-#[kani::stub(jxl_bitstream::Bitstream::read_bits, script_read_bits)]
-#[kani::unwind(34)]
-fn exp_script_unary() {
-    let n: u32 = kani::any();
-    let low: u32 = kani::any();
-    kani::assume(n <= 7);
-    unsafe { SCRIPT = [1, 0, 1, n, low, 0, 0, 0, 0, 0, 0, 0]; SCRIPT_POS = 0; }
+
+/// header "1, 0, U8() = val": flags, then U8 as (0) for val == 0 or (1, n, low n bits) with val = 2^n + low
+fn parse_one_symbol(las: u32, val: u32) {
+    let fields = if val == 0 { 3 } else { 5 };
+    let n = if val == 0 { 0 } else { 31 - val.leading_zeros() };
+    unsafe {
+        SCRIPT = if val == 0 { [1, 0, 0, 0, 0, 0] } else { [1, 0, 1, n, val - (1 << n), 0] };
+        SCRIPT_POS = 0;
+    }
     let data = [0u8; 1];
     let mut bs = Bitstream::new(&data);
-    let r = Histogram::parse(&mut bs, 5);
-    let val = (1u32 << n) + (low & ((1 << n) - 1));
+    let r = Histogram::parse(&mut bs, las);
+    let size = 1usize << las;
     match &r {
-        Err(e) => assert!(val >= 32),
+        Err(_) => assert!(false, "[C04] a one-symbol header inside the alphabet is accepted"),
         Ok(h) => {
-            assert!(val < 32);
-            assert!(unsafe { SCRIPT_POS } == 5);
-            assert!(h.single_symbol() == Some(val), "[C04] single symbol is the transmitted one");
-            check_table(h, 5, &|i| if i == val as usize { 4096 } else { 0 });
+            assert!(unsafe { SCRIPT_POS } == fields, "[C04] exactly the header fields are read");
+            assert!(h.single_symbol() == Some(val), "[C04] single_symbol() is the transmitted symbol");
+            assert!(wf_table(h) && h.buckets.len() == size && h.log_bucket_size == 12 - las, "[C02,C04] parse establishes wf_table");
+            let k: usize = kani::any();
+            kani::assume(k < size);
+            assert!(h.buckets[k].dist == if k == val as usize { 4096 } else { 0 }, "[C04] D is the transmitted distribution (sums to 2^12)");
+            let x: u32 = kani::any();
+            kani::assume(x < 4096);
+            assert!(wf_slot(h, x), "[C02,C04,C01] parse establishes wf_slot for every one of the 4096 slots");
+            assert!(spec_alias_lookup(h, x) == (val as usize, x), "[C04] slot x decodes to (symbol, offset x): a bijection onto the symbol's 4096 offsets");
         }
     }
+    kani::cover!(r.is_ok());
 }
 
 #[kani::proof]
 #[kani::stub(jxl_bitstream::Bitstream::read_bool, script_read_bool)]
 #[kani::stub(jxl_bitstream::Bitstream::read_bits, script_read_bits)]
 #[kani::unwind(34)]
-fn exp_script_binary() {
-    let n0: u32 = kani::any();
-    let low0: u32 = kani::any();
-    let n1: u32 = kani::any();
-    let low1: u32 = kani::any();
-    let prob: u32 = kani::any();
-    kani::assume(n0 <= 7 && n1 <= 7 && prob < 4096);
-    unsafe { SCRIPT = [1, 1, 1, n0, low0, 1, n1, low1, prob, 0, 0, 0]; SCRIPT_POS = 0; }
-    let data = [0u8; 1];
-    let mut bs = Bitstream::new(&data);
-    let r = Histogram::parse(&mut bs, 5);
-    let v0 = (1u32 << n0) + (low0 & ((1 << n0) - 1));
-    let v1 = (1u32 << n1) + (low1 & ((1 << n1) - 1));
-    let valid = v0 != v1 && v0 < 32 && v1 < 32;
-    match &r {
-        Err(e) => assert!(!valid),
-        Ok(h) => {
-            assert!(valid);
-            assert!(unsafe { SCRIPT_POS } == 9);
-            check_table(h, 5, &|i| if i == v0 as usize { prob } else if i == v1 as usize { 4096 - prob } else { 0 });
-        }
-    }
+fn parse_one_symbol_las5() {
+    parse_one_symbol(5, 0);
+    parse_one_symbol(5, 9);
+    parse_one_symbol(5, 31);
+}
+
+#[kani::proof]
+#[kani::stub(jxl_bitstream::Bitstream::read_bool, script_read_bool)]
+#[kani::stub(jxl_bitstream::Bitstream::read_bits, script_read_bits)]
+#[kani::unwind(66)]
+fn parse_one_symbol_las6() {
+    parse_one_symbol(6, 1);
+    parse_one_symbol(6, 40);
 }
